@@ -115,7 +115,7 @@ func genC14(t *rapid.T) C14Case {
 	c.Layouts = []string{relayout(t, toks, c.Infix, false), relayout(t, toks, c.Infix, false), relayout(t, toks, c.Infix, true)}
 	if rapid.IntRange(0, 2).Draw(t, "directive") == 0 {
 		c.DirMask = rapid.IntRange(0, 15).Draw(t, "dirmask")
-		c.DirVar = rapid.IntRange(0, 3).Draw(t, "dirvar")
+		c.DirVar = rapid.IntRange(0, directiveVariants-1).Draw(t, "dirvar")
 	}
 	return c
 }
